@@ -9,7 +9,8 @@ DIR=${2:-/verif/seeded/$ID}; DIR=$(cd "$DIR" && pwd)
 ORIG=${3:-$(cat "$DIR/ORIGIN" 2>/dev/null || echo /tmp/seed/$ID)}
 WT=/tmp/seedcheck-$ID-$$
 export GOFLAGS=-mod=mod GOPROXY=off
-git -C /repo worktree add -q "$WT" HEAD || exit 2
+BASE=$(python3 -c "import json,sys; print(json.load(open(sys.argv[1])).get('applies_to','HEAD'))" "$DIR/meta.json" 2>/dev/null || echo HEAD)
+git -C /repo worktree add -q "$WT" "${BASE:-HEAD}" || exit 2
 trap 'git -C /repo worktree remove --force "$WT" >/dev/null 2>&1' EXIT
 git -C "$WT" apply "$DIR/patch.diff" || { echo "patch does not apply"; exit 2; }
 echo "== $ID: $(git -C "$WT" diff --stat | tail -1)"
